@@ -428,26 +428,62 @@ def g_qshift_pr_symbolic(table, tol=1e-9, single_reflection=True, perturb=None):
 
 
 def g_qshift_pr_piece(table, kind, k, tol=1e-9, canary=False):
-    """one piece of the q-shift PR lemma (concrete taps, symbolic image length 4H >= 2m), restricted to output rows
-       kind='interior': P = k (mod 4), 2m <= P < 4H - 2m  (no reflection is reachable)
-       kind='left'    : P = k                              (0 <= k < 2m)
-       kind='right'   : P = 4H - k                         (1 <= k <= 2m)
-       kind='cover'   : the pieces cover every row 0 <= P < 4H
-    Splitting the single query of g_qshift_pr_symbolic this way keeps every SMT query small (the whole-query cost grows
-    much faster than the filter length)."""
+    """one piece of the q-shift PR lemma (concrete taps, symbolic image length 4H >= 2m), restricted to
+       kind='interior': rows P = k (mod 4), 2m <= P < 4H - 2m, images with 4H >= 4m  (no reflection is reachable)
+       kind='left'    : row P = k          (0 <= k < 2m),    images with 4H >= 4m     (only the left reflection is reachable)
+       kind='right'   : row P = 4H - k     (1 <= k <= 2m),   images with 4H >= 4m     (only the right one)
+       kind='small'   : the image length 4H = 4k with 2m <= 4k < 4m, all rows       (both reflections interact; everything concrete)
+       kind='cover'   : the pieces cover every image length 4H >= 2m and every row 0 <= P < 4H
+    Splitting the single query this way keeps every SMT query small: the cost of the single query grows much faster than the
+    filter length and depends on term order (hours for 18 taps)."""
     from . import groups_tables as T
     t = T.load(table)
     f = {k_: T.frac(t[k_]) for k_ in t if not k_.startswith('__') and k_ != 'param'}
     m = len(f['h0a'])
-    base = [Bn >= 1, C >= 1, H >= 1, W >= 1, 4 * H >= 2 * m]
+    P2 = z3.Int('P2')
+    small = list(range(-(-2 * m // 4), m))          # H with 2m <= 4H < 4m
+    if kind == 'cover':
+        CUR.ctx = Ctx([Bn >= 1, C >= 1, H >= 1, W >= 1, 4 * H >= 2 * m])
+        c = ctx()
+        hyp = [P2 >= 0, P2 < 4 * H]
+        far = z3.And(4 * H >= 4 * m, z3.Or(z3.And(P2 >= 2 * m, P2 < 4 * H - 2 * m, z3.Or(*[P2 % 4 == r for r in range(4)])),
+                                           z3.Or(*[P2 == q for q in range(2 * m)]), z3.Or(*[P2 == 4 * H - q for q in range(1, 2 * m + 1)])))
+        goal = z3.Or(far, z3.Or(*[H == q for q in small]))
+        return [solve.prove('LEMMA/qshift-PR-1d[%s]/pieces-cover-all-sizes-and-rows' % table, 'LEMMA', list(c.pc) + hyp, goal, SIZES)], {'m': m}
+    if kind == 'small':
+        # image length 4k with 2m <= 4k < 4m: both reflections interact; decided by exact rational computation with the SAME spec
+        # operators the contracts COLD / COLI are made of (specs.dt_coldfilt / dt_colifilt), one basis vector at a time
+        from . import specs
+        from fractions import Fraction as Fr
+        import time as _t
+        t0 = _t.time()
+        if canary:
+            f['g0a'] = list(f['g0a'])
+            f['g0a'][m // 2] += Fr(1, 1000)
+        bk = specs.FracBk
+        r = 4 * k
+        tap = lambda name: (lambda t_: f[name][t_])
+        worst = Fr(0)
+        where = None
+        for q in range(r):
+            xat = lambda j, q=q: Fr(1) if j == q else Fr(0)
+            lo_f = specs.dt_coldfilt(bk, xat, r, tap('h0b'), tap('h0a'), m, 0)
+            hi_f = specs.dt_coldfilt(bk, xat, r, tap('h1b'), tap('h1a'), m, 1)
+            lo_v = [lo_f(i) for i in range(r // 2)]
+            hi_v = [hi_f(i) for i in range(r // 2)]
+            ylo = specs.dt_colifilt(bk, lambda j: lo_v[j], r // 2, tap('g0b'), tap('g0a'), m, 0)
+            yhi = specs.dt_colifilt(bk, lambda j: hi_v[j], r // 2, tap('g1b'), tap('g1a'), m, 1)
+            for p_ in range(r):
+                e = abs(ylo(p_) + yhi(p_) - (1 if p_ == q else 0))
+                if e > worst:
+                    worst, where = e, (p_, q)
+        ok = worst <= Fr(tol)
+        return [solve.Ob('LEMMA/qshift-PR-1d[%s]/image-length=%d (all %d x %d entries of S.A - I, exact rationals)' % (table, r, r, r), 'LEMMA',
+                         'proved' if ok else 'refuted', 'exact-arithmetic', _t.time() - t0,
+                         {'max_abs_entry': float(worst), 'tol': tol} if ok else {'max_abs_entry': float(worst), 'at': where, 'model': {'H': k}})], {'m': m}
+    base = [Bn >= 1, C >= 1, H >= 1, W >= 1, 4 * H >= 4 * m]
     CUR.ctx = Ctx(base)
     c = ctx()
-    P2 = z3.Int('P2')
-    if kind == 'cover':
-        hyp = [P2 >= 0, P2 < 4 * H]
-        goal = z3.Or(z3.And(P2 >= 2 * m, P2 < 4 * H - 2 * m, z3.Or(*[P2 % 4 == r for r in range(4)])),
-                     z3.Or(*[P2 == q for q in range(2 * m)]), z3.Or(*[P2 == 4 * H - q for q in range(1, 2 * m + 1)]))
-        return [solve.prove('LEMMA/qshift-PR-1d[%s]/pieces-cover-all-rows' % table, 'LEMMA', list(c.pc) + hyp, goal, SIZES)], {'m': m}
     it = Interp()
     x = CD.data_tensor('x', (Bn, C, 4 * H, W))
     if canary:
@@ -465,4 +501,6 @@ def g_qshift_pr_piece(table, kind, k, tol=1e-9, canary=False):
 def qshift_pr_pieces(table):
     from . import groups_tables as T
     m = len(T.load(table)['h0a'])
-    return [('cover', 0)] + [('interior', r) for r in range(4)] + [('left', p) for p in range(2 * m)] + [('right', q) for q in range(1, 2 * m + 1)]
+    small = list(range(-(-2 * m // 4), m))
+    return [('cover', 0)] + [('interior', r) for r in range(4)] + [('left', p) for p in range(2 * m)] + [('right', q) for q in range(1, 2 * m + 1)] + \
+        [('small', h) for h in small]
